@@ -1,17 +1,33 @@
 #!/usr/bin/env bash
-# seedsweep.sh [seed-id ...] : run the owning quick check against every seeded change (scratch copy) and
-# print "<seed> <prop> exit=<rc> <signatures>"; results appended to /tmp/seedsweep.log
+# seedsweep.sh [seed-id ...] : for every seeded change, apply it to /repo (git -C /repo apply), run the
+# owning property's quick check (and, if that stays silent, the C17 check, which owns concurrency),
+# undo it (git -C /repo checkout -- .), and append one JSON line per run to seeded/sweep.jsonl.
+# Evidence and replays of these runs go to a scratch directory, never to /verif/evidence.
 cd /verif
+git -C /repo diff --quiet || { echo "/repo has uncommitted changes; refusing"; exit 2; }
+trap 'git -C /repo checkout -- . 2>/dev/null' EXIT INT TERM
 ids=("$@"); [ ${#ids[@]} -gt 0 ] || ids=($(ls seeded | grep '^C[0-9]'))
+: > seeded/sweep.jsonl.tmp
 for s in "${ids[@]}"; do
-  p=${s:0:3}
-  M=$(mktemp -d /tmp/seedrun.XXXXXX)
-  git -C /repo archive HEAD | tar -x -C $M
-  (cd $M && git init -q . >/dev/null 2>&1 && git apply --whitespace=nowarn /verif/seeded/$s/patch.diff) || { echo "$s $p apply-failed"; rm -rf $M; continue; }
-  R=$(mktemp -d /tmp/seedrep.XXXXXX)
-  out=$(VERIF_STALL_LIMIT=90s VERIF_REPO=$M VERIF_REPLAYS=$R VERIF_EVIDENCE=$R timeout 900 ./vsim check $p ${SWEEP_ARGS:-} 2>&1); rc=$?
-  sigs=$(echo "$out" | grep "^  signature:" | sed 's/  signature: //' | head -3 | tr '\n' ';')
-  infra=$(echo "$out" | grep -c "^INFRA")
-  echo "$s $p exit=$rc infra=$infra $sigs" | tee -a /tmp/seedsweep.log
-  rm -rf $M $R
+  owner=${s:0:3}
+  git -C /repo apply --whitespace=nowarn /verif/seeded/$s/patch.diff || { echo "$s: apply failed"; continue; }
+  for p in $owner C17; do
+    R=$(mktemp -d /tmp/seedrep.XXXXXX)
+    t0=$(date +%s)
+    out=$(VERIF_STALL_LIMIT=120s VERIF_REPLAYS=$R VERIF_EVIDENCE=$R timeout 1500 ./vsim check $p ${SWEEP_ARGS:-} 2>&1); rc=$?
+    t1=$(date +%s)
+    python3 - "$s" "$p" "$rc" "$((t1-t0))" <<PY >> seeded/sweep.jsonl.tmp
+import json,sys,re
+out=open('/dev/stdin').read() if False else """$(echo "$out" | grep "^VIOLATION\|^  signature:\|^INFRA\|^runs=" | head -40 | sed 's/\\/\\\\/g; s/"""/'"'"''"'"''"'"'/g')"""
+sigs=[l.split(': ',1)[1] for l in out.splitlines() if l.startswith('  signature:')]
+runs=[l for l in out.splitlines() if l.startswith('runs=')]
+print(json.dumps({"seed":sys.argv[1],"check":sys.argv[2],"exit":int(sys.argv[3]),"wall_s":int(sys.argv[4]),"signatures":sigs[:6],"infra_lines":sum(1 for l in out.splitlines() if l.startswith('INFRA')),"summary":runs[-1] if runs else ""}))
+PY
+    rm -rf $R
+    echo "$s via $p exit=$rc"
+    [ $rc = 1 ] && break
+    [ $p = C17 ] && break
+  done
+  git -C /repo checkout -- .
 done
+mv seeded/sweep.jsonl.tmp seeded/sweep.jsonl
